@@ -29,8 +29,8 @@ struct BitsetTest {
 	Enumerator &E;
 	uint64_t cases = 0;
 	BitsetTest(Enumerator &e) : E(e) {
-		g = (Guarded *)malloc(sizeof(Guarded) * 2);
-		for(int k = 0; k < 2; k++) { APOISON(g[k].before, sizeof g[k].before); APOISON(g[k].after, sizeof g[k].after); }
+		g = (Guarded *)malloc(sizeof(Guarded) * 3);
+		for(int k = 0; k < 3; k++) { APOISON(g[k].before, sizeof g[k].before); APOISON(g[k].after, sizeof g[k].after); }
 	}
 	~BitsetTest() { free(g); }
 	// an object with garbage in it before construction: uninitialised words show up
@@ -89,6 +89,8 @@ struct BitsetTest {
 				{ B &b = from(r); bool got = ~b[i]; if(got != !r[i]) throw Violation{"C18", "bitset:~ref", NS + " ~ref " + ci + " is not the complement of the bit"}; cases++; }
 				{ B &b = from(r); if(bool(b[i]) != r[i]) throw Violation{"C18", "bitset:ref-bool", NS + " bool(ref) wrong " + ci}; cases++; }
 				for(size_t j : {size_t(0), N - 1, (i + 1) % N}) { B &b = from(r); R x = r; b[i] = b[j]; x[i] = x[j]; same(b, x, "ref=ref", ci + " j=" + std::to_string(j)); }
+				// the source reference may belong to another bitset (here: the complement, so that every bit differs)
+				for(size_t j : {size_t(0), N - 1, (i + 1) % N, i}) { B &b = from(r); R x = r, y = ~r; B &o = from(y, 2); b[i] = o[j]; x[i] = y[j]; same(b, x, "ref=ref(other bitset)", ci + " j=" + std::to_string(j)); same(o, y, "ref=ref(other bitset):source", ci); }
 			}
 			{ B &b = from(r); R x = r; b.set(); x.set(); same(b, x, "set()", ctx); }
 			{ B &b = from(r); R x = r; b.reset(); x.reset(); same(b, x, "reset()", ctx); }
